@@ -16,7 +16,7 @@ META = {
     "assumptions": ["oracle is the statement: contiguity, containment, pairwise disjointness, ancilla coverage minus one slot per 0-round block, translation by the cycle length, estimate inverts size = repetitions x cycle"],
     "exhaustive": {"quick": True, "thorough": True},
     "floors": {
-        "quick": {"experiments": 2500, "kernels_checked": 9000, "ancilla_coverage_checks": 3000, "translation_checks": 2500, "estimate_checks": 2500, "large_experiments": 50, "large_beyond_int32": 15, "experiments_without_calibration_points": 800, "medium_round_experiments": 20, "large_getter_reads": 1000},
+        "quick": {"experiments": 2500, "kernels_checked": 9000, "ancilla_coverage_checks": 3000, "translation_checks": 2500, "estimate_checks": 2500, "large_experiments": 50, "large_beyond_int32": 15, "experiments_without_calibration_points": 800, "medium_round_experiments": 20, "large_getter_reads": 1000, "handed_rounds_list_changed": 300},
         "thorough": {"experiments": 19000, "kernels_checked": 70000, "large_experiments": 500, "large_beyond_int32": 200},
     },
 }
@@ -57,8 +57,24 @@ def check_case(case: Dict[str, Any], acc: Acc):
     anc = [QubitIDObj(n) for n in anc_names]
     wrap = {"experiment": case}
     acc.count("experiments")
-    kernel = RepetitionExperimentKernel(rounds=rounds, heralded_initialization=heralded, qutrit_calibration_points=True,
+    # the constructor is handed its own list object; in 2 of 5 experiments the caller re-uses (sorts / reverses / overwrites / empties) that
+    # object afterwards - the description a kernel was built from is the one at construction (seeded change C12-r11: getters zipped over the live list)
+    handed = list(rounds)
+    kernel = RepetitionExperimentKernel(rounds=handed, heralded_initialization=heralded, qutrit_calibration_points=True,
                                         involved_data_qubit_ids=data, involved_ancilla_qubit_ids=anc, experiment_repetitions=reps)
+    edit = (sum(rounds) * 7 + len(rounds) * 3 + reps + (1 if heralded else 0)) % 10
+    if edit < 4:
+        if edit == 0:
+            handed.sort()
+        elif edit == 1:
+            handed.reverse()
+        elif edit == 2:
+            handed[:] = [handed[-1]] + handed[:-1] if len(handed) > 1 else [handed[0] + 1]
+        else:
+            handed.clear()
+        acc.count("handed_rounds_list_edited")
+        if handed != list(rounds):
+            acc.count("handed_rounds_list_changed")
     h = 1 if heralded else 0
     kernels = kernel.indexing_kernels
     # ---- contiguity
